@@ -177,7 +177,7 @@ def native_lib(san=True, jobs=16):
 def native_harness(text, san=True, extra_srcs=(), defs=()):
     """compile harness text + vp_native.cpp against the native lib -> executable path"""
     lib = native_lib(san)
-    flags = NATFLAGS + (SAN if san else []) + list(defs)
+    flags = NATFLAGS + (SAN if san else []) + ['-DVP_NATIVE_FS'] + list(defs)
     key = hashlib.sha256(('\0'.join(flags) + header_digest() + text + lib +
                           open(os.path.join(SUPPORT, 'vp_native.cpp')).read()).encode()).hexdigest()[:24]
     d = os.path.join(CACHE, 'nat')
